@@ -167,25 +167,25 @@ def register(claim, na):
 ADDED = {
     "C01": "R-WEIGHTROLE: in get_barycentric_coordinates_plane the weights of an edge stay with its two vertices, the third is 0 and closed-form weights sum to 1. R-ERICSON: the six Voronoi-region tests of closest_point_triangle are Ericson's conditions (names resolved to the vertices).",
     "C02": "R-SUPPORTSIBLING (box / capsule / cylinder supports of the two Nesterov files have the same shape up to data access); R-ERICSON (jolt triangle solver); R-MAINLOOP (the two Nesterov main loops are statement-for-statement the same shape); R-PORTALDIR (the portal "
-           "direction used with the length tolerance of MPR is unit).",
+           "direction used with the length tolerance of MPR is unit). R-FRAME over the collider methods the tests call (centre, support, first vertex): MPR aims its origin ray at collider.center().",
     "C03": "R-SHORTCUTS (the six signed-axis extremes are the shortcut vertices of the hill climb); R-BASISGUARD (plane_basis_from_normal branches on magnitudes before dividing by the length of the winning pair); R-ADJACENCY (each vertex of a mesh "
            "triangle gets the other two as neighbours); R-HALFSIZE; R-PUREARGS (public functions never modify an array argument in place).",
     "C04": "R-LINKS / R-REFIT on the AABB tree that backs RigidBody.aabb(); R-HALFSIZE; R-PUREARGS. R-ROUNDTRIP: a square root whose radicand vanishes for axis-aligned poses is not fed by a term recovered through cancellation ((p + h*axis) - p) — the tightness clause for poses far from the origin.",
-    "C05": "R-TRAVERSE additionally: no exit before the traversal (no pre-filter on the query box). R-CLOSED is decided by abstract evaluation of aabb_overlap's body on all 729 order types of the six bound pairs (loops, early exits and negations included).",
-    "C06": "R-CLOSED by abstract evaluation (see C05).",
-    "C07": "R-TOLUNIT (self.epsilon is compared with quantities of one length degree only). R-LOUDCAP: running out of polytope faces is asserted, never a silent break.",
+    "C05": "R-TRAVERSE additionally: no exit before the traversal (no pre-filter on the query box). R-CLOSED is decided by abstract evaluation of aabb_overlap's body on all 729 order types of the six bound pairs (loops, early exits and negations included). A pre-filter in front of a traversal (anything that returns or empties the stack before the loop) must imply non-overlap under the closed-interval test: its condition is evaluated on a grid of integer boxes that realises every order type of the four bounds of an axis. Guard-clause and nested-if styles of the traversal are equivalent to the rule.",
+    "C06": "R-CLOSED by abstract evaluation (see C05). Pre-filter clause of R-TRAVERSE (see C05).",
+    "C07": "R-TOLUNIT (self.epsilon is compared with quantities of one length degree only). R-LOUDCAP: running out of polytope faces is asserted, never a silent break. R-SWAPREMOVE: an index handed to a swap-remove inside a loop that changes the container is computed in that iteration; a scan that removes at its own position re-examines it.",
     "C08": "R-ERICSON (point_to_triangle, used for depth and direction); R-PORTALDIR.",
-    "C09": "R-MAINLOOP, R-SUPPORTSIBLING (see C02); R-COFACTORSIGN: every cofactor comparison in BarycentricCoordinates is `d > c` or its exact complement `d <= c`.",
-    "C10": "R-TOLUNIT (each epsilon parameter is compared with quantities of a single length degree; three upstream exceptions are named); R-SEGSIBLING (_line_to_line_segment is _line_segment_to_line_segment minus the clamping of t); R-PARALLELSIGN (parallel tests are orientation independent); R-ERICSON (point_to_triangle); R-HALFSIZE; R-PUREARGS.",
-    "C11": "R-TOLUNIT; R-SEGSIBLING; R-PARALLELSIGN; R-ERICSON; R-SIDES (x2 computed from side-2 data: the rectangle extents); R-HALFSIZE.",
-    "C12": "R-TOLUNIT (tolerances keep one length degree: scale covariance of the degeneracy tests); R-MIRROR / R-CASEDISPATCH / R-TOURNAMENT / R-BOXFACE: the line-to-box case analysis is invariant under relabelling of the box axes.",
-    "C13": "R-SQRTDOMAIN for np.sqrt in the predicates; R-HALFSIZE over the predicates and the point_to_<shape> functions they must agree with; R-PUREARGS.",
-    "C14": "R-SHORTCUTS; R-ADJACENCY; R-PUREARGS.",
+    "C09": "R-MAINLOOP, R-SUPPORTSIBLING (see C02); R-COFACTORSIGN: every cofactor comparison in BarycentricCoordinates is `d > c` or its exact complement `d <= c`. Vertex candidates of the backup procedure are judged by their effects on a normal form (helpers, literal loops and straight-line methods expanded): weight 1 in slot 0, point, squared norm, recorded index.",
+    "C10": "R-TOLUNIT (each epsilon parameter is compared with quantities of a single length degree; three upstream exceptions are named); R-SEGSIBLING (_line_to_line_segment is _line_segment_to_line_segment minus the clamping of t); R-PARALLELSIGN (parallel tests are orientation independent); R-ERICSON (point_to_triangle); R-HALFSIZE; R-PUREARGS. R-AFFINE: every returned vector is an affine combination of positions (position weight 1) or a direction (0) — weights inferred through +, -, constant factors and per call site through private helpers. R-ISOLATED: a case analysis over one scalar leaves no single threshold value to a fall-through written for a range.",
+    "C11": "R-TOLUNIT; R-SEGSIBLING; R-PARALLELSIGN; R-ERICSON; R-SIDES (x2 computed from side-2 data: the rectangle extents); R-HALFSIZE. R-ISOLATED (see C10).",
+    "C12": "R-TOLUNIT (tolerances keep one length degree: scale covariance of the degeneracy tests); R-MIRROR / R-CASEDISPATCH / R-TOURNAMENT / R-BOXFACE: the line-to-box case analysis is invariant under relabelling of the box axes. R-AFFINE (translation invariance: returned points carry position weight 1); R-SELCOMP (a divisor component is selected by magnitude, not by signed value).",
+    "C13": "R-SQRTDOMAIN for np.sqrt in the predicates; R-HALFSIZE over the predicates and the point_to_<shape> functions they must agree with; R-PUREARGS. R-ISOLATED: row masks / if-chains over one scalar against thresholds do not drop a single threshold value into the fall-through case.",
+    "C14": "R-SHORTCUTS; R-ADJACENCY; R-PUREARGS. R-UNTOUCHED: no function that is handed a collider modifies its state in place, directly or through np.asarray / view aliases (the property is observed through queries, so these functions belong to the scope).",
     "C15": "R-ANGLESORT (contact polygon ordered by arctan2(y, x) about the centroid); R-BOUNDEDSTORE (counter-indexed stores into local buffers are bounded by a check or by the loop count); R-STIFFNESS: both terms of the contact-plane expression carry the same Young's-modulus exponents (dimensional bookkeeping with E1, E2 as units); "
-           "R-HPLAYOUT: half-plane rows (px, py | dx, dy) are sliced only at pair boundaries.",
-    "C16": "R-STIFFNESS (see C15).",
-    "C18": "R-COFACTORSIGN; R-ERICSON (jolt); Solution.from_vertex stores weight 1 in slot 0 (R-JOHNSON).",
-    "C19": "R-BASISGUARD.",
+           "R-HPLAYOUT: half-plane rows (px, py | dx, dy) are sliced only at pair boundaries. R-PLANECROSS also at the caller: before a polygon is built both tetrahedra are tested against the plane (no reduction over the stacked vertices of both). R-STIFFNESS followed from find_contact_surface to contact_plane with the exponents of the actual arguments.",
+    "C16": "R-STIFFNESS (see C15). R-STIFFNESS followed through the call chain (a pressure field passed together with the modulus applies the stiffness twice).",
+    "C18": "R-COFACTORSIGN; R-ERICSON (jolt); Solution.from_vertex stores weight 1 in slot 0 (R-JOHNSON). R-BITMAP sees through extracted remap helpers; vertex candidates by effects (see C09).",
+    "C19": "R-BASISGUARD. Flag loops (`while not done: ...; done = E`) are classified through their normal form `while True: ...; if E: break`.",
     "C20": "R-BOUNDEDSTORE (see C15).",
 }
 ALL = "R-UNPACK (tuple results unpacked in the callee's return order) and R-DUPCOND (no repeated operand / self-comparison / repeated elif test) over every function in the property's scope."
